@@ -98,6 +98,14 @@ def generate(repo):
         ("generate_stats_file", r"pub fn generate_stats_file\(&self\) -> String"),
         ("import_stats_file", r"pub fn import_stats_file\(&mut self, file: String\) -> Result<\(\), String>"),
         ("get_lint_config_as_json", r"pub fn get_lint_config_as_json\(&self\) -> String"),
+        # the exports Model/C16Stats.v models (the JsValue ones as the value / the steps of their _json twin)
+        ("summarize_stats", r"pub fn summarize_stats\(&self, start_time: Option<i64>, end_time: Option<i64>\) -> JsValue"),
+        ("get_lint_descriptions_as_json", r"pub fn get_lint_descriptions_as_json\(&self\) -> String"),
+        ("get_lint_descriptions_as_object", r"pub fn get_lint_descriptions_as_object\(&self\) -> JsValue"),
+        ("get_lint_config_as_object", r"pub fn get_lint_config_as_object\(&self\) -> JsValue"),
+        ("set_lint_config_from_object", r"pub fn set_lint_config_from_object\(&mut self, object: JsValue\) -> Result<\(\), String>"),
+        ("set_lint_config_from_json", r"pub fn set_lint_config_from_json\(&mut self, json: String\) -> Result<\(\), String>"),
+        ("get_default_lint_config", r"pub fn get_default_lint_config\(\) -> JsValue"),
     ]
     body_defs = []
     for name, rx in bodies:
